@@ -279,25 +279,33 @@ def named_ranges(maxlen):
                     fails.append({"signature": f"site=NamedRange; class=table-name:{cls}; symptom=address-does-not-parse-back",
                                   "replay": {"replay_module": "mc.checks.c19", "part": "named_range", "name": name, "crange": crange, "history": [],
                                              "oracle": "roundtrip", "expected": exp, "actual": got}})
-            # rename: exactly the ranges pointing to the old name follow
+            # rename: exactly the ranges pointing to the old name follow; decoy tables whose
+            # names contain / are contained in the renamed one must keep their ranges
             nev += 1
             try:
                 doc = Document("spreadsheet")
                 body = doc.body
                 body.clear()
-                t1 = Table(name, width=2, height=2)
-                t2 = Table("Other", width=2, height=2)
-                body.append(t1)
-                body.append(t2)
+                decoys = []
+                for cand in (name[:-1], name[1:], name + "x", "x" + name):
+                    if table_rule(cand) == cand and cand != name and cand not in decoys and cand != "Other":
+                        decoys.append(cand)
+                body.append(Table(name, width=2, height=2))
+                body.append(Table("Other", width=2, height=2))
+                for dn in decoys:
+                    body.append(Table(dn, width=2, height=2))
                 t1 = body.get_table(0)
                 t2 = body.get_table(1)
                 t1.set_named_range("r_one", "A1:B2")
                 t2.set_named_range("r_two", "A1")
+                exp = []
+                for i, dn in enumerate(decoys):
+                    body.get_table(2 + i).set_named_range(f"r_decoy_{i}", "B2")
+                    exp.append((f"r_decoy_{i}", dn, (1, 1, 1, 1)))
                 new = "New" + name
                 t1.name = new
-                buf_body = Element.from_tag(body.serialize())
                 got = sorted((n.name, n.table_name, n.crange) for n in body.get_named_ranges())
-                exp = sorted([("r_one", new, (0, 0, 1, 1)), ("r_two", "Other", (0, 0, 0, 0))])
+                exp = sorted(exp + [("r_one", new, (0, 0, 1, 1)), ("r_two", "Other", (0, 0, 0, 0))])
                 if got != exp:
                     raise AssertionError((exp, got))
             except AssertionError as e:
